@@ -29,8 +29,17 @@ pub fn library() -> Vec<PkgSpec> {
         // exports TYPES (a resource, a record and a function over the resource): every
         // instantiation has its own `r`, so an alias of `r` must name its own instance
         PkgSpec::from_component("t:ty", None, mc_core::libs::wat(TY_EXPORTER).expect("t:ty")),
+        // imports a COMPONENT: an explicit import of that kind occupies a slot of the component
+        // index space next to the embedded / imported packages
+        PkgSpec::from_component("t:host", None, mc_core::libs::wat(COMPONENT_IMPORTER).expect("t:host")),
     ]
 }
+
+pub const COMPONENT_IMPORTER: &str = r#"(component
+      (import "plugin" (component (export "y" (func))))
+      (import "p" (func))
+      (export "hq" (func 0))
+    )"#;
 
 pub const TY_EXPORTER: &str = r#"(component
       (type $r' (resource (rep i32)))
@@ -48,25 +57,26 @@ pub fn universe(prop: &'static str, tier: Tier) -> Universe {
     let mut u = Universe::build(prop, library());
     u.add_import_kind_from_import(2, "p");
     u.add_import_kind_from_import(3, "m");
+    u.add_import_kind_from_import(5, "plugin");
     let s = |v: &[&str]| v.iter().map(|x| x.to_string()).collect::<Vec<_>>();
     // (`mk`, a function over the resource, is not aliased here: exporting it without `r` is the
     // C01 finding export-of-a-function-over-a-resource-that-is-not-exported)
     u.alias_names = s(&["a", "b", "n", "x", "y", "r", "deep", "rec"]);
     u.import_names = s(&["p", "k"]);
     u.export_names = s(&["e1", "e2"]);
-    u.arg_names = s(&["p", "q", "m"]);
+    u.arg_names = s(&["p", "q", "m", "plugin"]);
     u.node_names = s(&["n1", "n2"]);
     u.define_names = vec![];
-    u.names = classify_names(&["a", "b", "n", "x", "y", "r", "deep", "rec", "mk", "p", "q", "m", "k", "e1", "e2"]);
+    u.names = classify_names(&["a", "b", "n", "x", "y", "r", "deep", "rec", "mk", "p", "q", "m", "k", "e1", "e2", "plugin", "hq"]);
     u.max_nodes = 7;
-    u.max_pkgs = 5;
+    u.max_pkgs = 6;
     u.ops = ["Instantiate", "Alias", "Import", "SetArg", "Export", "SetName"].into_iter().collect();
     u
 }
 
 pub fn seeds() -> Vec<Vec<Op>> {
     let s = |x: &str| x.to_string();
-    let reg = vec![Op::Register(0), Op::Register(1), Op::Register(2), Op::Register(3), Op::Register(4)];
+    let reg = vec![Op::Register(0), Op::Register(1), Op::Register(2), Op::Register(3), Op::Register(4), Op::Register(5)];
     let with = |ops: Vec<Op>| -> Vec<Op> { reg.iter().cloned().chain(ops).collect() };
     vec![
         with(vec![]),
